@@ -1,3 +1,4 @@
+mod backendfam;
 mod chain;
 mod cloudfam;
 mod cryptofam;
@@ -35,6 +36,11 @@ impl log::Log for StderrLog {
 static LOGGER: StderrLog = StderrLog;
 
 fn main() {
+    // git-backed servers are created below the work directory, which may itself lie inside a git
+    // repository: stop git from discovering that one
+    let base = std::env::var("TCVERIF_WORK").unwrap_or_else(|_| "/verif/work/tmp".to_string());
+    std::env::set_var("GIT_CEILING_DIRECTORIES", &base);
+    std::env::set_var("GIT_CONFIG_NOSYSTEM", "1");
     if std::env::var("TCVERIF_LOG").is_ok() {
         log::set_logger(&LOGGER).unwrap();
         log::set_max_level(log::LevelFilter::Trace);
@@ -115,6 +121,14 @@ fn main() {
             let mode = fam[6..].to_string();
             for id in first..first + count {
                 emit(&mut out, util::guarded(|| cloudfam::gen_cloud(seed, id, &mode)));
+            }
+        }
+        "backend" => {
+            let kind = arg(&args, "--kind").unwrap_or_else(|| "local".into());
+            let faults = args.iter().any(|a| a == "--faults");
+            let big = args.iter().any(|a| a == "--big");
+            for id in first..first + count {
+                emit(&mut out, util::guarded(|| backendfam::gen_backend(seed, id, &kind, faults, big)));
             }
         }
         "task-mut" => {
